@@ -21,6 +21,7 @@ Environment facts you need:
 - Python to use: /venv/bin/python (3.12). `import pybrops` fails under the sandbox numpy 2.5 unless you first do `import numpy; numpy.float_ = numpy.float64` — put that shim at the top of your demonstration program. With the shim the whole library imports and runs. Run your demo as: cd {wt} && PYTHONPATH={wt} /venv/bin/python {out}/<mN>/demo.py   (PYTHONPATH makes `import pybrops` resolve to your worktree instead of the installed /repo; verify with pybrops.__file__).
 - The pinned test suite (must still pass with your change): cd {wt} && PYTHONPATH={wt} /venv/bin/python -m pytest -q -p no:cacheprovider --timeout=900 --continue-on-collection-errors 2>&1 | tail -3   (run the WHOLE suite exactly like this; expected summary on the unchanged tree: '1 failed, 92 passed, 305 errors' - the errors are collection errors caused by the numpy incompatibility and are expected; running single test files instead does NOT work).
 - No network. Do not install anything.
+- NEVER use `git stash` (the stash is shared by all worktrees of this repository and other people work in sibling worktrees): to switch between changed/unchanged code use `git diff > /path/patch.diff; git checkout -- .` and `git apply /path/patch.diff`.
 
 What I want — TWO independent changes (different code sites / different failure mechanisms), each as its own deliverable directory {out}/m1 and {out}/m2 containing:
   1. patch.diff — `git diff` output of ONLY that change relative to the worktree's HEAD (apply one change at a time; produce with `git -C {wt} diff > .../patch.diff`, then `git -C {wt} checkout -- .` before making the next change). Touch only files under pybrops/ (not tests).
